@@ -212,11 +212,25 @@ func (vm *VM) convertPanic(msg any) error {
 			return vm.newPanic(runtimeError("makechan: size out of range"))
 		}
 	case OpMakeSlice:
-		if err, ok := msg.(string); ok {
+		switch err := msg.(type) {
+		case string:
 			switch err {
 			case "reflect.MakeSlice: negative len":
 				return vm.newPanic(runtimeError("runtime error: makeslice: len out of range"))
 			case "reflect.MakeSlice: negative cap", "reflect.MakeSlice: len > cap":
+				return vm.newPanic(runtimeError("runtime error: makeslice: cap out of range"))
+			}
+		case runtime.Error:
+			if err.Error() == "runtime: allocation size out of range" {
+				// The size of the slice exceeds the maximum allocation size.
+				// As gc does, blame the length if it is too large by itself.
+				in, next := vm.fn.Body[vm.pc-1], vm.fn.Body[vm.pc]
+				length := vm.intk(next.A, in.B&(1<<1) != 0)
+				capacity := vm.intk(next.B, in.B&(1<<2) != 0)
+				size := vm.fn.Types[uint8(in.A)].Elem().Size()
+				if length == capacity || size > 0 && uintptr(length) > ^uintptr(0)/size {
+					return vm.newPanic(runtimeError("runtime error: makeslice: len out of range"))
+				}
 				return vm.newPanic(runtimeError("runtime error: makeslice: cap out of range"))
 			}
 		}
